@@ -452,13 +452,19 @@ fn main() {
     let mut tcp_runs = 0;
     let mut tcp_inconclusive = 0;
     if !tcp.is_empty() {
-        let rt = tokio::runtime::Builder::new_multi_thread().worker_threads(4).enable_all().build().unwrap();
         for b in &tcp {
             let dialed = b["sc"]["dialed"].as_str().unwrap().to_string();
             for _ in 0..reps {
                 let mut got = None;
                 for _attempt in 0..3 {
-                    got = rt.block_on(tcp_case(&dialed));
+                    // a fresh runtime per case; a panic of the code under test (e.g. a debug assertion in the
+                    // connection manager) is an outcome, not a harness crash
+                    let rt = tokio::runtime::Builder::new_multi_thread().worker_threads(2).enable_all().build().unwrap();
+                    got = match catch(|| rt.block_on(tcp_case(&dialed))) {
+                        Ok(g) => g,
+                        Err(p) => Some(("panic".to_string(), String::new(), p.chars().take(80).collect())),
+                    };
+                    rt.shutdown_background();
                     if got.is_some() {
                         break;
                     }
